@@ -172,6 +172,9 @@ type sdSnap struct {
 }
 
 type sdPaged struct {
+	start    string
+	inv      bool
+	commit   int
 	q        string
 	expected []string
 	got      map[model.Pair]bool
@@ -808,6 +811,7 @@ func (s *sdRun) checkC03(withPaging bool) {
 	for _, sc := range s.scopes() {
 		// single-call answers per (dir, start, pred) for the transpose check
 		single := map[string]map[model.Pair]bool{}
+		badIncoming := map[string]bool{} // incoming answers already judged against the model
 		for _, inv := range []bool{false, true} {
 			for _, start := range s.vocab.IDs {
 				for _, pred := range preds {
@@ -819,11 +823,22 @@ func (s *sdRun) checkC03(withPaging bool) {
 					got := r.Set()
 					single[fmt.Sprintf("%v|%s|%s", inv, start, pred)] = got
 					q := fmt.Sprintf("start=%s pred=%s inverse=%v scope=%v", start, pred, inv, sc)
-					if d := r.Dups(); len(d) > 0 {
-						s.viol("C03", relClass(inv, false)+"-duplicate", q+": pair returned twice", nil, d)
+					cls := func(paged bool, mis []model.Pair, suffix string) string {
+						if inv {
+							if c := s.m.ClassifyIncoming(start, pred, sc, -1, paged, mis); c != "" {
+								return c
+							}
+						}
+						return relClass(inv, paged) + suffix
+					}
+					if d := r.DupPairs(); len(d) > 0 {
+						s.viol("C03", cls(false, d, "-duplicate"), q+": pair returned twice", nil, r.Dups())
 					}
 					if !reflect.DeepEqual(want, got) {
-						s.viol("C03", relClass(inv, false), q+": result set differs from the graph of latest versions", model.PairList(want), model.PairList(got))
+						s.viol("C03", cls(false, model.SymDiff(want, got), ""), q+": result set differs from the graph of latest versions", model.PairList(want), model.PairList(got))
+						if inv {
+							badIncoming[fmt.Sprintf("%s|%s", start, pred)] = true
+						}
 					}
 					if withPaging {
 						for _, lim := range []int{1, 2, 3} {
@@ -831,11 +846,11 @@ func (s *sdRun) checkC03(withPaging bool) {
 							if !ok {
 								return
 							}
-							if d := pr.Dups(); len(d) > 0 {
-								s.viol("C03", relClass(inv, true)+"-duplicate", fmt.Sprintf("%s limit=%d: pair returned twice across pages", q, lim), model.PairList(want), d)
+							if d := pr.DupPairs(); len(d) > 0 {
+								s.viol("C03", cls(true, d, "-duplicate"), fmt.Sprintf("%s limit=%d: pair returned twice across pages", q, lim), model.PairList(want), pr.Dups())
 							}
 							if !reflect.DeepEqual(pr.Set(), want) {
-								s.viol("C03", relClass(inv, true), fmt.Sprintf("%s limit=%d: union of pages differs from the graph of latest versions", q, lim), model.PairList(want), model.PairList(pr.Set()))
+								s.viol("C03", cls(true, model.SymDiff(want, pr.Set()), ""), fmt.Sprintf("%s limit=%d: union of pages differs from the graph of latest versions", q, lim), model.PairList(want), model.PairList(pr.Set()))
 							}
 						}
 					}
@@ -846,11 +861,14 @@ func (s *sdRun) checkC03(withPaging bool) {
 		for _, a := range s.vocab.IDs {
 			for _, p := range s.vocab.Preds {
 				for o := range single[fmt.Sprintf("false|%s|%s", a, p)] {
-					if in, ok := single[fmt.Sprintf("true|%s|%s", o.Other, p)]; ok && !in[model.Pair{Pred: p, Other: a}] {
+					if in, ok := single[fmt.Sprintf("true|%s|%s", o.Other, p)]; ok && !badIncoming[o.Other+"|"+p] && !in[model.Pair{Pred: p, Other: a}] {
 						s.viol("C03", "transpose", fmt.Sprintf("scope=%v: %s -%s-> %s is returned outgoing but not incoming", sc, a, p, o.Other), nil, nil)
 					}
 				}
 				for o := range single[fmt.Sprintf("true|%s|%s", a, p)] {
+					if badIncoming[a+"|"+p] {
+						break
+					}
 					if out, ok := single[fmt.Sprintf("false|%s|%s", o.Other, p)]; ok && !out[model.Pair{Pred: p, Other: a}] {
 						s.viol("C03", "transpose", fmt.Sprintf("scope=%v: %s -%s-> %s is returned incoming but not outgoing", sc, o.Other, p, a), nil, nil)
 					}
@@ -999,7 +1017,7 @@ func (s *sdRun) snapshot() {
 		if err == nil && len(r.Set()) >= 2 {
 			q, err := s.core.Store.GetManyRelatedEntitiesBatch([]string{start}, "*", inv, nil, 1, true)
 			if err == nil {
-				p := &sdPaged{q: fmt.Sprintf("start=%s pred=* inverse=%v limit=1", start, inv), expected: model.PairList(r.Set()), got: map[model.Pair]bool{}, cont: q.Cont, openedAt: s.opIdx}
+				p := &sdPaged{start: start, inv: inv, commit: s.m.Commit, q: fmt.Sprintf("start=%s pred=* inverse=%v limit=1", start, inv), expected: model.PairList(r.Set()), got: map[model.Pair]bool{}, cont: q.Cont, openedAt: s.opIdx}
 				for _, rel := range q.Relations {
 					p.got[model.Pair{Pred: obsExpand(s.core.Store, rel.PredicateURI), Other: obsExpand(s.core.Store, rel.RelatedEntity.ID)}] = true
 				}
@@ -1036,8 +1054,11 @@ func (s *sdRun) stepPaged() bool {
 			s.ctx.Out.Stat("c06_paged_completed", 1)
 			if !reflect.DeepEqual(got, p.expected) {
 				cls := "paged-asof"
-				if strings.Contains(p.q, "inverse=true") {
+				if p.inv {
 					cls = "paged-asof-incoming"
+					if c := s.m.ClassifyIncoming(p.start, "*", nil, p.commit, true, model.SymDiff(parsePairs(strings.Join(p.expected, ";")), p.got)); c != "" {
+						cls = "asof-incoming-via-C03"
+					}
 				}
 				s.viol("C06", cls, fmt.Sprintf("%s opened at op %d and continued during later writes: pages do not add up to the result as of the first page", p.q, p.openedAt), p.expected, got)
 			}
@@ -1100,6 +1121,10 @@ func (s *sdRun) reask() {
 						cls = "asof-relation-outgoing"
 						if q.inv {
 							cls = "asof-relation-incoming"
+							// cascade: the incoming index scan defects of C03 seen through an as-of query
+							if c := s.m.ClassifyIncoming(q.id, q.pred, q.scope, sn.commit, false, model.SymDiff(parsePairs(want), parsePairs(got))); c != "" {
+								cls = "asof-incoming-via-C03"
+							}
 						}
 					}
 					s.viol("C06", cls, fmt.Sprintf("%s as of %d (commit %d, T=%d): answer differs from what the current-state query returned then", q.key(), at, sn.commit, sn.T), want, got)
@@ -1135,4 +1160,19 @@ func (s *sdRun) questionsFor(sn sdSnap) []sdQ {
 		}
 	}
 	return qs
+}
+
+func parsePairs(a string) map[model.Pair]bool {
+	m := map[model.Pair]bool{}
+	for _, x := range strings.Split(a, ";") {
+		if x == "" {
+			continue
+		}
+		i := strings.Index(x, " ")
+		if i < 0 {
+			continue
+		}
+		m[model.Pair{Pred: x[:i], Other: x[i+1:]}] = true
+	}
+	return m
 }
